@@ -490,6 +490,15 @@ func (t *sseClientTransport) sendResponseMessage(response interface{}) {
 		}
 	}
 
+	if t.client != nil {
+		if err := t.client.applyHTTPBeforeRequest(ctx, httpReq); err != nil {
+			if t.logger != nil {
+				t.logger.Errorf("HTTP before-request failed for response: %v", err)
+			}
+			return
+		}
+	}
+
 	var resp *http.Response
 	resp, err = t.httpReqHandler.Handle(ctx, t.httpClient, httpReq) // Always use httpReqHandler consistently.
 
